@@ -10,7 +10,7 @@ Decided is one necessary structural condition per anchored mechanism, for every 
   E21 N4     nested diagonal entries are exchanged by a permutation, never mixed (generators stay q-homogeneous);
   E10 R6     the (-c) -> ring dispatch runs the documented ring type for each of Z, Q, F2, F3.
 """
-import e23_bigrade, e21_snfscan, e10_cli
+import e23_bigrade, e21_snfscan, e10_cli, e19_homcalc
 
 LEVEL = 'other'
 EXPLANATION = ('Static analysis (MIR path summaries with loop havoc; CFG reachability; expanded dispatch table) of the four mechanisms the '
@@ -31,6 +31,8 @@ def run(ctx, rep):
     rep.rule('E10.R6', 'dispatch table of kh / ckh: App::<T>::run is reached with the documented ring type for every combination')
     e23_bigrade.run(facts, rep)
     e21_snfscan.run(facts, rep, mixing_rule=True)
+    rep.rule('E19', 'the torsion generators are the rows / columns r1-t..r1 of the SNF transform, the ones that belong to the non-unit factors (E19 H1-H4)')
+    e19_homcalc.run(facts, rep)
     for cmd in ('kh', 'ckh'):
         e10_cli.check_dispatch_table(facts, rep, cmd, 'i64')
     rep.callsites += sum(len(facts.bodies[k].calls()) for k in rep.functions if k in facts.bodies)
